@@ -49,3 +49,253 @@ Definition ref_print (l : list bytes) (b e : Z) : list bytes * Z :=
   (firstn (Z.to_nat (e - b)) (skipn (Z.to_nat b) l), Z.max b (e - 1)).
 
 Definition texts (s : st) : list bytes := map ltxt (lns (lb s)).
+
+(* ------------------------------------------------------------------------------------------ *)
+(* The reference line editor on WHOLE SCRIPTS (C06_refines_spec).
+   State [rst]: what the property talks about -- the texts, the current line, what was printed -- plus what
+   the listed commands need to be defined at all: the registers, the rows the marks designate, the
+   remembered search pattern, the pending input (command lines and text blocks) and the quit / writeany flags.
+   No identities, no ln_glob bits, no undo history, no sequence numbers, no error flags.
+   Concrete syntax: a command line is cut into (address, command word, argument, text block) by the pure
+   functions ex_loc / ex_cmd / ex_idx / ex_arg / ex_txt of ExDefs.v (they look at bytes only); an address string
+   is resolved by ex_region evaluated on the reference state ([ref_region]; its outcomes are characterised by
+   C06_resolve_bounds).  Everything a command DOES is stated here with the functions above (ref_append ...).
+   [None] = the script leaves the command set of C06: global (C15), substitute, undo (C04), write (C02), the
+   commands ExDefs.v does not model, and the constructs it flags as outside its fragment. *)
+Record rst := mkrst {
+  r_txt : list bytes; r_cur : Z; r_out : list oitem; r_regs : list (N * bytes);
+  r_marks : list Z; r_kwd : bytes; r_kwddir : Z; r_inp : list bytes; r_quit : bool; r_wa : bool }.
+
+Definition abs (s : st) : rst :=
+  mkrst (texts s) (xrow s) (out s) (regs s) (map fst (marks (lb s))) (kwd s) (kwddir s) (inp s) (xquit s) (xwa s).
+
+(* the reference state as an ExDefs state (fresh identities 0, no history): only used to evaluate ex_region *)
+Definition conc (r : rst) : st :=
+  mkst (mklb (map (mkline 0 0%N) (r_txt r)) (map (fun z => (z, @None nat)) (r_marks r)) [] 0 0 0 0 0)
+       (r_cur r) (r_regs r) (r_kwd r) (r_kwddir r) (r_out r) (r_inp r) (r_quit r) (r_wa r) 0 None 0%N.
+
+Definition r_addr (r : rst) (c : Z) (k : bytes) (d : Z) : rst :=
+  mkrst (r_txt r) c (r_out r) (r_regs r) (r_marks r) k d (r_inp r) (r_quit r) (r_wa r).
+Definition r_cur_set (r : rst) (c : Z) : rst := r_addr r c (r_kwd r) (r_kwddir r).
+Definition r_set (r : rst) (t : list bytes) (c : Z) (m : list Z) : rst :=
+  mkrst t c (r_out r) (r_regs r) m (r_kwd r) (r_kwddir r) (r_inp r) (r_quit r) (r_wa r).
+Definition r_emit (r : rst) (o : list oitem) : rst :=
+  mkrst (r_txt r) (r_cur r) (o ++ r_out r) (r_regs r) (r_marks r) (r_kwd r) (r_kwddir r) (r_inp r) (r_quit r) (r_wa r).
+Definition r_regs_set (r : rst) (g : list (N * bytes)) : rst :=
+  mkrst (r_txt r) (r_cur r) (r_out r) g (r_marks r) (r_kwd r) (r_kwddir r) (r_inp r) (r_quit r) (r_wa r).
+Definition r_inp_set (r : rst) (i : list bytes) : rst :=
+  mkrst (r_txt r) (r_cur r) (r_out r) (r_regs r) (r_marks r) (r_kwd r) (r_kwddir r) i (r_quit r) (r_wa r).
+Definition r_quit_set (r : rst) : rst :=
+  mkrst (r_txt r) (r_cur r) (r_out r) (r_regs r) (r_marks r) (r_kwd r) (r_kwddir r) (r_inp r) true (r_wa r).
+Definition r_len (r : rst) : Z := Z.of_nat (length (r_txt r)).
+
+(* a mark while the lines [pos, pos+ndel) are replaced by nins lines: above the range it stays, below it moves
+   with its line; inside the range the property leaves it open -- the editor unsets it when the lines are
+   deleted for good (no text given) and otherwise keeps the row, clipped to the new lines *)
+Definition ref_mark_shift (nul : bool) (pos ndel nins r : Z) : Z :=
+  if r <? pos then r
+  else if pos + ndel <=? r then r + nins - ndel
+  else if nul then -1 else Z.min r (pos + nins - 1).
+
+Definition opt_lines (t : option bytes) : list bytes := match t with Some x => split_lines x | None => [] end.
+
+(* the marks after the lines [b,e) were replaced by the text t (None with b = e: no edit at all).
+   Slots (markidx): 27 = '*, 28 = '[ (first changed line), 29 = '] (last changed line), 30 = '^ *)
+Definition ref_marks_edit (t : option bytes) (b e : Z) (m : list Z) : list Z :=
+  if (b =? e) && (match t with None => true | Some _ => false end) then m
+  else
+    let n := Z.of_nat (length (opt_lines t)) in
+    let nul := match t with None => true | Some _ => false end in
+    upd 29 (b + (if n =? 0 then 0 else n - 1))
+      (upd 28 b (map (ref_mark_shift nul b (e - b) n) (upd 27 (nth 30 m (-1)) m))).
+
+Section RefEd.
+Variable rvalid : bytes -> bool.
+Variable rfind : bytes -> bytes -> bool -> option (nat * nat).
+Variable filter : bytes -> bytes -> option bytes.
+Variable readfile : bytes -> option bytes.
+Variable curpath : bytes.
+
+Definition ref_region (loc : bytes) (r : rst) : bool * Z * Z * rst :=
+  let '(bad, b, e, s1) := ex_region rvalid rfind loc (conc r) in (bad, b, e, r_addr r (xrow s1) (kwd s1) (kwddir s1)).
+
+Definition nonzero (b e : Z) : bool := negb (b =? 0) || negb (e =? 0).
+
+(* append / insert / change: address 0 (the (0,0) outcome) means "before the first line" *)
+Definition ref_insert_cmd (loc cmd : bytes) (txt : option bytes) (r : rst) : rst * Z :=
+  let '(bad, b, e, r1) := ref_region loc r in
+  if bad && nonzero b e then (r1, 1)
+  else
+    let t := opt_lines txt in
+    if (hd0 cmd =? 99)%N then
+      let '(l', c') := ref_change (r_txt r1) b e t in (r_set r1 l' c' (ref_marks_edit txt b e (r_marks r1)), 0)
+    else if (hd0 cmd =? 97)%N then
+      let pos := if b <? e then b + 1 else b in
+      let '(l', c') := ref_append (r_txt r1) b e t in (r_set r1 l' c' (ref_marks_edit txt pos pos (r_marks r1)), 0)
+    else
+      let '(l', c') := ref_insert (r_txt r1) b e t in (r_set r1 l' c' (ref_marks_edit txt b b (r_marks r1)), 0).
+
+Definition ref_print_cmd (loc cmd : bytes) (r : rst) : rst * Z :=
+  if (match cmd, loc with [], [] => true | _, _ => false end) && (r_len r <=? r_cur r) then (r, 1)
+  else
+    let '(bad, b, e, r1) := ref_region loc r in
+    if bad || ex_zero loc b e then (r1, 1)
+    else let '(l, c') := ref_print (r_txt r1) b e in (r_cur_set (r_emit r1 (rev (map OLine l))) c', 0).
+
+(* the command without a name: one line forward (if there is one), then print what the address says *)
+Definition ref_null_cmd (loc cmd : bytes) (r : rst) : rst * Z :=
+  ref_print_cmd loc cmd (r_cur_set r (if r_cur r + 1 <? r_len r then r_cur r + 1 else r_cur r)).
+
+Definition ref_delete_cmd (loc arg : bytes) (r : rst) : rst * Z :=
+  let '(bad, b, e, r1) := ref_region loc r in
+  if bad || ex_zero loc b e || (r_len r1 =? 0) then (r1, 1)
+  else
+    let '(l', c') := ref_delete (r_txt r1) b e in
+    (r_set (r_regs_set r1 (reg_put (r_regs r1) (REG arg) (ref_range (r_txt r1) b e))) l' c'
+           (ref_marks_edit None b e (r_marks r1)), 0).
+
+Definition ref_yank_cmd (loc arg : bytes) (r : rst) : rst * Z :=
+  let '(bad, b, e, r1) := ref_region loc r in
+  if bad || ex_zero loc b e || (r_len r1 =? 0) then (r1, 1)
+  else (r_regs_set r1 (reg_put (r_regs r1) (REG arg) (ref_range (r_txt r1) b e)), 0).
+
+Definition ref_reg_get (r : rst) (c : N) : option bytes := reg_getraw (r_regs r) (if (c =? 34)%N then 0%N else c).
+
+Definition ref_put_cmd (loc arg : bytes) (r : rst) : option (rst * Z) :=
+  if reg_special (REG arg) then None else
+  match ref_reg_get r (REG arg) with
+  | None => Some (r, 1)
+  | Some buf =>
+    let '(bad, b, e, r1) := ref_region loc r in
+    if bad && nonzero b e then Some (r1, 1)
+    else let '(l', c') := ref_put (r_txt r1) b e (split_lines buf) in
+         Some (r_set r1 l' c' (ref_marks_edit (Some buf) e e (r_marks r1)), 0)
+  end.
+
+Definition ref_lnum_cmd (loc : bytes) (r : rst) : rst * Z :=
+  let '(bad, b, e, r1) := ref_region loc r in
+  if bad || ex_zero loc b e then (r1, 1) else (r_emit r1 [ONum e], 0).
+
+Definition ref_mark_cmd (loc arg : bytes) (r : rst) : rst * Z :=
+  let '(bad, b, e, r1) := ref_region loc r in
+  if bad || ex_zero loc b e then (r1, 1)
+  else (r_set r1 (r_txt r1) (r_cur r1)
+          (match markidx (hd0 arg) with Some k => upd k (e - 1) (r_marks r1) | None => r_marks r1 end), 0).
+
+Definition ref_read_cmd (loc arg : bytes) (r : rst) : option (rst * Z) :=
+  if negb (plain_arg arg) || (hd0 arg =? 33)%N then None else
+  let path := match arg with [] => curpath | _ => arg end in
+  let '(bad, b, e, r1) := ref_region loc r in
+  if bad && nonzero b e then Some (r1, 1)
+  else
+    match readfile path with
+    | None => Some (r_emit r1 [OMsg M_READFAIL], 1)
+    | Some data =>
+      let pos := if r_len r1 =? 0 then 0 else e in
+      let '(l', c') := ref_read (r_txt r1) b e (split_lines data) in
+      Some (r_emit (r_set r1 l' c' (ref_marks_edit (Some data) pos pos (r_marks r1))) [OMsg M_READ], 0)
+    end.
+
+(* the filter: the addressed lines are the input, the output replaces them, the current line NUMBER stays;
+   without writeany the editor first asks whether the buffer is modified (C02): outside this reference *)
+Definition ref_filter_cmd (loc arg : bytes) (r : rst) : option (rst * Z) :=
+  if negb (r_wa r) then None
+  else if negb (plain_arg arg) then None
+  else match loc with
+  | [] => None
+  | _ =>
+    let '(bad, b, e, r1) := ref_region loc r in
+    if bad || ex_zero loc b e then Some (r1, 1)
+    else match filter arg (ref_range (r_txt r1) b e) with
+         | Some rep => Some (r_set r1 (splice (Z.to_nat b) (Z.to_nat e) (split_lines rep) (r_txt r1)) (r_cur r1)
+                                   (ref_marks_edit (Some rep) b e (r_marks r1)), 0)
+         | None => Some (r1, 0)
+         end
+  end.
+
+Definition ref_simple (abbr loc cmd arg : bytes) (txt : option bytes) (r : rst) : option (rst * Z) :=
+  if is abbr [97]%N || is abbr [105]%N || is abbr [99]%N then Some (ref_insert_cmd loc cmd txt r)
+  else if is abbr [100]%N then Some (ref_delete_cmd loc arg r)
+  else if is abbr [107]%N then Some (ref_mark_cmd loc arg r)
+  else if is abbr [112]%N then Some (ref_print_cmd loc cmd r)
+  else if is abbr [112; 117]%N then ref_put_cmd loc arg r
+  else if is abbr [113; 33]%N then Some (r_quit_set r, 0)
+  else if is abbr [114]%N then ref_read_cmd loc arg r
+  else if is abbr [114; 115]%N then match txt with Some t => Some (r_regs_set r (reg_put (r_regs r) (REG arg) t), 0) | None => None end
+  else if is abbr [115]%N then None                                  (* substitute *)
+  else if is abbr [117]%N then None                                  (* undo *)
+  else if is abbr [119]%N || is abbr [119; 33]%N then None           (* write *)
+  else if is abbr [121]%N then Some (ref_yank_cmd loc arg r)
+  else if is abbr [33]%N then ref_filter_cmd loc arg r
+  else if is abbr [61]%N then Some (ref_lnum_cmd loc r)
+  else if is abbr [101; 99]%N then Some (r_emit r [OEcho arg], 0)
+  else if is abbr [] then Some (ref_null_cmd loc cmd r)
+  else None.
+
+(* the text block of a i c (from the input, up to the lone ".") and the text of rs *)
+Definition ref_txt (src abbr : bytes) (r : rst) : bytes * option bytes * rst :=
+  let c0 := hd0 abbr in
+  let c1 := hd0 (tl abbr) in
+  let is_rs := ((c0 =? 114) && (c1 =? 115))%N in
+  match is_rs, src with
+  | true, _ :: _ => let '(t, rest) := inline_block src [] in (rest, Some (t ++ [nl]), r)
+  | _, _ =>
+    if is_rs || ((c1 =? 0) && ((c0 =? 105) || (c0 =? 97) || (c0 =? 99)))%N then
+      let '(t, i') := read_block (r_inp r) [] in (src, Some t, r_inp_set r i')
+    else (src, None, r)
+  end.
+
+(* @r: the register is run as a command line with the current line at the first addressed line *)
+Definition ref_at_cmd (exec : bytes -> rst -> option (rst * Z)) (loc arg : bytes) (r : rst) : option (rst * Z) :=
+  if reg_special (REG arg) then None else
+  match ref_reg_get r (REG arg) with
+  | None => Some (r, 1)
+  | Some buf =>
+    let '(bad, b, e, r1) := ref_region loc r in
+    if bad || ex_zero loc b e then Some (r1, 1) else exec buf (r_cur_set r1 b)
+  end.
+
+(* one command line: commands separated by "|"; the fuel bounds the number of commands and the nesting of @ *)
+Fixpoint ref_exec (fuel : nat) (ret : Z) (ln : bytes) (r : rst) : option (rst * Z) :=
+  match fuel with
+  | O => None
+  | S f =>
+    match ln with
+    | [] => Some (r, ret)
+    | _ =>
+      let '(ln1, loc) := ex_loc ln in
+      let '(ln2, cmd) := ex_cmd ln1 in
+      let idx := ex_idx cmd in
+      let abbr := match idx with Some a => a | None => str [117;110;107;110;111;119;110]%N end in
+      let '(ln3, arg) := ex_arg ln2 abbr in
+      let '(ln4, txt, r1) := ref_txt ln3 abbr r in
+      match (match idx with
+             | None => if is_other cmd then None else Some (r_emit r1 [OMsg M_UNKNOWN], ret)
+             | Some a =>
+               if (hd0 a =? 103)%N || (hd0 a =? 118)%N then None                  (* global: C15 *)
+               else if (hd0 a =? 64)%N then ref_at_cmd (ref_exec f 0) loc arg r1
+               else ref_simple a loc cmd arg txt r1
+             end) with
+      | None => None
+      | Some (r2, ret2) => ref_exec f ret2 ln4 r2
+      end
+    end
+  end.
+
+(* the script: command lines are taken from the input until q! or the end; each is remembered in register ":" *)
+Fixpoint ref_main (n fuel : nat) (r : rst) : option rst :=
+  match n with
+  | O => None
+  | S n' =>
+    if r_quit r then Some r
+    else match r_inp r with
+         | [] => Some r
+         | ln :: rest =>
+           match ref_exec fuel 0 ln (r_inp_set r rest) with
+           | None => None
+           | Some (r1, _) => ref_main n' fuel (r_regs_set r1 (reg_put (r_regs r1) 58 ln))
+           end
+         end
+  end.
+
+End RefEd.
